@@ -18,6 +18,7 @@ type Config struct {
 	Imports    bool // several packages with imports
 	Services   bool
 	Topics     bool
+	Entities   bool // entity declarations (keys, data, statuses, events; J5sEntity.v)
 	PFiles     bool // hand-written .proto files in local packages
 	// percentage of inline types that are named like one of their enclosing messages
 	AncestorNames int
@@ -27,7 +28,7 @@ type Config struct {
 
 func DefaultConfig() Config {
 	return Config{MaxDepth: 4, MaxFields: 7, Oneofs: true, Containers: true, Refs: true, Imports: true,
-		Services: true, Topics: true, PFiles: true, AncestorNames: 2, MaxPackages: 3, MaxFiles: 3}
+		Services: true, Topics: true, Entities: true, PFiles: true, AncestorNames: 2, MaxPackages: 3, MaxFiles: 3}
 }
 
 type typeEntry struct {
@@ -811,6 +812,8 @@ func (g *Gen) Bundle() (*Bundle, string) {
 					decls = append(decls, &Element{Kind: "service"})
 				case g.Cfg.Topics && r < 24:
 					decls = append(decls, &Element{Kind: "topic"})
+				case g.Cfg.Entities && r < 31:
+					decls = append(decls, &Element{Kind: "entity"})
 				default:
 					decls = append(decls, &Element{Kind: "schema"})
 				}
@@ -826,6 +829,12 @@ func (g *Gen) Bundle() (*Bundle, string) {
 						continue
 					}
 					g.Stats["topic_"+e.Topic.Kind]++
+				case "entity":
+					e.Entity = g.entity()
+					if e.Entity == nil {
+						continue
+					}
+					g.Stats["entity"]++
 				default:
 					n := g.nestedDecl(st.symbols, nil, 0, true)
 					if n == nil {
